@@ -186,7 +186,10 @@ pub trait MysqlShim<W: Read + Write> {
     ) -> Result<(), Self::Error>;
 
     /// Called when client switches database.
-    fn on_init(&mut self, _: &str, _: InitWriter<'_, W>) -> Result<(), Self::Error> {
+    ///
+    /// The default implementation accepts the switch and tells the client so.
+    fn on_init(&mut self, _: &str, writer: InitWriter<'_, W>) -> Result<(), Self::Error> {
+        writer.ok()?;
         Ok(())
     }
 
